@@ -189,6 +189,15 @@ def check_mutator(reg, src, name, state, args_fn, via_setattr=False):
         ok, why = inv_j(ex, s, target, None)
         e = None
         reg.ground(pre + "Inv_J-preserved" + sfx, "inv-pres", "DiffRHS." + name, ok, backend="symbolic-exec", detail=why)
+        if name in ("set_jac_base_order", "__copy__") and state in ("hooked-before-first-call", "user"):
+            # an operation that is not about attaching / detaching must not lose the attached function: a following jac(t, y) (on the
+            # object itself, or on the copy) still returns the user's function value
+            want = "hooked" if state == "hooked-before-first-call" else "userjac"
+            fj = src.func(F, "DiffRHS.jac")
+            t, y = Poly.sym("t"), LinComb.sym("y")
+            for s2, v2 in ex.call_function(fj, [target, t, y], {}, s.fork(), Ctx(fj, None, fj.cls, tag=tag)):
+                reg.ground(pre + "attached-function-survives" + sfx, "post", "DiffRHS." + name, (not isinstance(v2, Raised)) and v2 == LinComb.app(want, t, y),
+                           backend="symbolic-exec", detail="jac(t, y) after %s still returns %s(t, y); got %r" % (name, want, v2 if not isinstance(v2, Raised) else v2.exc))
         if name == "hook_jacobian_call" or via_setattr:
             want = "assigned" if via_setattr else "newfn"
             # a following jac(t, y) returns the attached function's value
@@ -245,8 +254,12 @@ def run(tier):
         R.under_contract(check_call_counter(reg, src))
         # the unhooked state must itself be usable: unhook, then jac
         from . import C16_fd
-        C16_fd.check_estimate(reg, src, R)
-        C16_fd.check_converged(reg, src, R)
+        C16_fd.check_estimate_frame(reg, src, R)
+        for part in (C16_fd.check_estimate, C16_fd.check_converged, C16_fd.check_richardson):
+            try:
+                part(reg, src, R)
+            except Unsupported as e:
+                reg.undecided("%s/%s/unsupported" % (PID, part.__name__), "unsupported", "executor", str(e))
     except Unsupported as e:
         reg.undecided(PID + "/executor/unsupported", "unsupported", "executor", str(e))
     for ob in list(reg.obligations):
